@@ -99,8 +99,11 @@ impl Gen<'_> {
 
     /// A key expression: immediate hot slot, calldata-selected, or data-dependent (pointer chase).
     fn key_expr(&mut self) -> Expr {
-        match self.rng.below(10) {
+        match self.rng.below(12) {
             0..=4 => self.hot_key(),
+            // a pointer target read or written directly: the location another transaction reaches
+            // only through a data-dependent key (and may withdraw on re-execution)
+            10..=11 => imm(100 + self.rng.below(4)),
             5..=6 => Expr::And(Box::new(Expr::CallData(0)), Box::new(imm(self.hot_slots.next_power_of_two() - 1))),
             7..=8 => {
                 // slot(100 + (sload(k) & 3)) : a stale read of k touches a DIFFERENT key
@@ -417,6 +420,12 @@ pub fn generate(seed: u64, opts: &GenOptions) -> Scenario {
     let mut reserve_policy = false;
     let template_base = n_contract + 1;
     match profile {
+        Profile::Conflict if g.rng.chance(7, 10) => {
+            intents = crate::templates::conflict_dense(g.rng, n_eoa, template_base, opts.max_txs, &mut pre_state);
+        }
+        Profile::Mixed if g.rng.chance(1, 5) => {
+            intents = crate::templates::conflict_dense(g.rng, n_eoa, template_base, opts.max_txs, &mut pre_state);
+        }
         Profile::Lifecycle if g.rng.chance(2, 3) => {
             intents = crate::templates::lifecycle(g.rng, spec, n_eoa, template_base, &mut pre_state);
         }
